@@ -308,6 +308,11 @@ def nt_registry():
         # "a time step passed by the caller governs both the returned time axes and the dynamics"
         ip.prove('nt/dt-governs-dynamics', veq(kw['dt'], g['dt_axes']) if 'dt' in kw else z3.BoolVal(False),
                  {'dt_forwarded': 'dt' in kw})
+        # ... and so does the start time: the dynamics inside must be sampled on the same time axis as the labels
+        ip.prove('nt/start-time-governs-dynamics', veq(kw['start_time'], g['t0']) if 'start_time' in kw else z3.BoolVal(False),
+                 {'start_time_forwarded': 'start_time' in kw})
+        for key, want in (('system', 'system'), ('process_tensor', 'process_tensor'), ('initial_state', 'initial_state')):
+            ip.prove('nt/%s-forwarded' % key, z3.BoolVal(key in kw and kw[key] is ip.target_kwargs.get(want)))
         f0 = to_int(ft[0])
         return Seq(lt.length, lambda m: CorrF(f0, lt.fn(m)), 'ndarray')
 
@@ -420,6 +425,8 @@ def post_nt(ip, ctx, out):
 
 
 def replay_nt(ob):
+    if 'start-time' in ob['name']:
+        return {'func': 'nt_start_time', 'inputs': {'obligation': ob['name']}}
     return {'func': 'nt_alignment', 'inputs': {'obligation': ob['name'], 'model': ob.get('model')}}
 
 
